@@ -281,8 +281,9 @@ a sufficiently different (still correct) rewrite of an anchored function can
 make a rule report `violated`/`undecided`/`vacuous`: in round 4 (fresh
 refactorings after three rounds of hardening) 44 of 80 still alarmed at first, so
 the honest expectation for an unseen restructuring of an anchored function is
-"about even". All 240 kept refactorings are quiet today (`C09-r5`, open after
-round 3, is decided by the *held* ownership form). The mirror and
+"about even" - and round 5 (46 of 80) confirmed it. All 321 kept refactorings
+(rounds 1-5) are quiet today (`C09-r5`, open after round 3, is decided by the
+*held* ownership form). The mirror and
 lockstep rules would fire on an asymmetric-but-equivalent rewrite of one twin.
 Refactorings that rename exported API or change a struct's field *types* are
 outside the rename normalisation.
@@ -449,6 +450,7 @@ Generated by `tools/gen_matrix.py` from the thorough-tier evidence (also in
 
 ''' + seeds
 r4='/verif/tools/round4.md'
-doc=doc.replace('ROUND4_PLACEHOLDER', open(r4).read() if os.path.exists(r4) else '(round 4 results pending)')
+r5='/verif/tools/round5.md'
+doc=doc.replace('ROUND4_PLACEHOLDER', (open(r4).read() if os.path.exists(r4) else '(round 4 results pending)') + '\n' + (open(r5).read() if os.path.exists(r5) else ''))
 open('/verif/DESIGN.md','w').write(doc)
 print(len(doc.splitlines()),'lines')
